@@ -1732,7 +1732,7 @@ def randomizer_bin_und(R, alpha, seed=None):
     ax = len(R)
     nr_poss_edges = (np.dot(ax, ax) - ax) / 2  # find maximum possible edges
 
-    savediag = np.diag(R)
+    savediag = np.diag(R).copy()
     np.fill_diagonal(R, np.inf)  # replace diagonal with high value
 
     # if there are more edges than non-edges, invert the matrix to reduce
@@ -1743,7 +1743,7 @@ def randomizer_bin_und(R, alpha, seed=None):
     k = len(i)
     if k > nr_poss_edges / 2:
         swap = True
-        R = np.logical_not(R)
+        R = np.logical_not(R).astype(float)
         np.fill_diagonal(R, np.inf)
         i, j = np.where(np.triu(R, 1))
         k = len(i)
@@ -1776,7 +1776,7 @@ def randomizer_bin_und(R, alpha, seed=None):
         # we can only use edges with connection to neither node
         i_intersect = np.intersect1d(alliholes, alljholes)
         # find which of these nodes are connected
-        ii, jj = np.where(R[np.ix_(i_intersect, i_intersect)])
+        ii, jj = np.where(R[np.ix_(i_intersect, i_intersect)] == 1)
 
         # if there is an edge to switch
         if np.size(ii):
@@ -1825,7 +1825,7 @@ def randomizer_bin_und(R, alpha, seed=None):
         R = np.logical_not(R)
 
     # restore diagonal
-    np.fill_diagonal(R, 0)
-    R += savediag
+    R = np.array(R, dtype=float)
+    R[np.diag_indices(ax)] = savediag
 
     return np.array(R, dtype=int)
